@@ -568,8 +568,11 @@ fn eligible(tree: &Tree, dir: &str) -> Vec<String> {
     v
 }
 
-fn expect(state: &BTreeMap<String, Vec<u8>>, tree: &Tree, inv: &Invocation, env: &Env, immutable_ok: bool) -> Expect {
+fn expect(state0: &BTreeMap<String, Vec<u8>>, tree: &Tree, inv: &Invocation, env: &Env, immutable_ok: bool) -> Expect {
     let cfg = inv.cfg();
+    // inputs are processed one after the other: a file named twice is read again after it was written
+    let mut state_mut = state0.clone();
+    let state = state0;
     let mut ex = Expect {
         files: BTreeMap::new(),
         stdout: None,
@@ -639,10 +642,13 @@ fn expect(state: &BTreeMap<String, Vec<u8>>, tree: &Tree, inv: &Invocation, env:
         Shape::Files(fs) => {
             for p in fs {
                 let text: Result<String, ()> = match entry_kind(p) {
-                    Some(Kind::File { .. }) => String::from_utf8(state.get(p).cloned().unwrap_or_default()).map_err(|_| ()),
+                    Some(Kind::File { .. }) => String::from_utf8(state_mut.get(p).cloned().unwrap_or_default()).map_err(|_| ()),
                     _ => Err(()), // missing, directory, dangling symlink
                 };
                 handle(Some(p), text, &mut ex, &mut out, inv.inplace && !inv.check);
+                if let Some(fe) = ex.files.get(p) {
+                    state_mut.insert(p.clone(), fe.bytes.clone());
+                }
             }
             if !inv.inplace && !inv.check {
                 ex.stdout = Some(out);
@@ -720,7 +726,7 @@ impl Prop for CliProp {
 
     fn gen_cases(&self, tier: Tier) -> u64 {
         match tier {
-            Tier::Quick => 12_000,
+            Tier::Quick => 30_000,
             Tier::Thorough => 300_000,
         }
     }
